@@ -193,7 +193,8 @@ def chain (s : Sys) (i : Nat) : List Nat := chainAux s (s.n + 1) i
 inductive SPage | moduleIndex | classIndex | nameIndex | undocced | allDocuments
   deriving DecidableEq, Repr, Inhabited
 
-/-- a file of the output directory. `page full` is `quote(full) + '.html'` -/
+/-- a file of the output directory. `page full` is the file `full + '.html'`: hrefs spell it `quote(full) + '.html'`,
+the writer names it `unquote(ob.url)` (b01e5ed), which is what a browser asks for -/
 inductive File
   | index
   | summary (p : SPage)
